@@ -361,6 +361,30 @@ def _ref_set(text, drop_water):
     return exp, bad
 
 
+NUCLEIC_NAMES = {"A", "C", "G", "U", "T", "DA", "DC", "DG", "DT", "RA", "RC",
+                 "RG", "RU", "ADE", "CYT", "GUA", "URA", "THY"}
+PHOSPHATE = {"P", "O1P", "O2P", "OP1", "OP2"}
+
+
+def _five_prime_phosphates(text):
+    """(chain, res_seq, icode, name) of the phosphate atoms of a nucleotide
+    that opens its chain: the termini do not model a 5'-terminal phosphate and
+    the program removes it by design (stated in C03), so under the end-to-end
+    driver these atoms may be present or absent."""
+    atoms, _bad = pdb_ref.first_model_atoms(text)
+    first = {}
+    for a in atoms:
+        first.setdefault(a["chain"], (a["res_seq"], a["icode"],
+                                      a["res_name"]))
+    out = set()
+    for a in atoms:
+        f = first[a["chain"]]
+        if (a["res_seq"], a["icode"], a["res_name"]) == f and \
+                a["res_name"] in NUCLEIC_NAMES and a["name"] in PHOSPHATE:
+            out.add((a["chain"], a["res_seq"], a["icode"], a["name"]))
+    return out
+
+
 def _model_set(atoms):
     got = {}
     for a in atoms:
@@ -426,6 +450,13 @@ def outcome(text, driver, drop_water, blank_relabel):
             return None  # nothing to ingest (all waters dropped): may refuse
         return ("exception:" + type(exc).__name__, str(exc)[:200])
     got = _model_set(atoms)
+    if driver == "clean":
+        optional = _five_prime_phosphates(text)
+        if optional:
+            exp = {k: v for k, v in exp.items() if k[:4] not in optional}
+            got = {k: v for k, v in got.items()
+                   if (k[0] or "", k[1], k[2], k[3]) not in optional
+                   and k[:4] not in optional}
     missing, extra = _compare(exp, got, blank_relabel)
     nexp, ngot = sum(exp.values()), sum(got.values())
     if missing and extra:
